@@ -10,7 +10,11 @@ import (
 func main() {
 	cfg := lib.ParseFlags()
 	res := lib.NewResult("C09")
-	res.Rule = "StringHash: all histories of length<=L over a 12-operation mutating alphabet on 4 keys (bounded-exhaustive, " +
+	res.Rule = "Array/Hash: histories over a pool of values (literal, BuildArray/BuildHash and parser-built collections; every " +
+		"List/OrderedMap operation on any earlier value), every result compared with the immutable-sequence / insertion-ordered-map " +
+		"reference and all query methods with the element walk; non-trivial = merges into / deletes from / looks up in a non-empty " +
+		"hash, or changes a non-empty array, or parses a literal with more than one entry. " +
+		"StringHash: all histories of length<=L over a 12-operation mutating alphabet on 4 keys (bounded-exhaustive, " +
 		"full observation after every step) + seeded random multi-object histories; a history is non-trivial when it " +
 		"contains a Delete of a present key that is not the last entry, or a mutation of a frozen hash, or a Merge/PutAll " +
 		"with a non-empty operand; distinct = distinct operation sequences"
@@ -19,6 +23,7 @@ func main() {
 		replay(cfg, res)
 	} else {
 		runStringHash(cfg, res, rng)
+		runColl(cfg, res, rng)
 	}
 	res.Write(cfg)
 }
@@ -28,12 +33,22 @@ func main() {
 func replay(cfg *lib.Config, res *lib.Result) {
 	cf := &lib.CasesFile{Imports: []string{"Model.Base", "Model.StringHash", "Corr.CorrC09"}, Typ: "list op * list out",
 		Obligations: map[string]string{"stringhash_model": "sh_mismatches cases"}}
+	ccf := newCollCases()
+	defer func() {
+		if len(ccf.Cases) > 0 {
+			res.CorrFiles = append(res.CorrFiles, ccf.WriteTo(cfg.Out, "cases_coll"))
+		}
+	}()
 	for _, in := range lib.ReplayInputs(cfg.Replay) {
 		var x struct {
 			Kind string `json:"kind"`
 			Ops  []shOp `json:"ops"`
 		}
 		lib.Remarshal(in, &x)
+		if x.Kind == "coll" {
+			replayColl(cfg, res, in, ccf)
+			continue
+		}
 		if x.Kind != "stringhash" {
 			continue
 		}
